@@ -133,7 +133,7 @@ Qed.
 (* the error code of a failed exchange is never 0, provided errno values are non-zero *)
 Fixpoint errnos_nonzero (e : nerr) : Prop :=
   match e with
-  | EOp e' | ESys e' | EUrl e' | EWrap e' => errnos_nonzero e'
+  | EOp e' | ESys e' | EUrl e' | EWrap e' | EUnder e' => errnos_nonzero e'
   | EErrno n => n <> 0
   | EOther => True
   end.
@@ -143,8 +143,12 @@ Proof.
   induction e; cbn [errno_loop errnos_nonzero]; auto; intros _; unfold proto_code_error; discriminate.
 Qed.
 
+Lemma strip_under_nonzero e : errnos_nonzero e -> errnos_nonzero (strip_under e).
+Proof. induction e; cbn [strip_under errnos_nonzero]; auto. Qed.
+Lemma strip_cause_nonzero e : errnos_nonzero e -> errnos_nonzero (strip_cause e).
+Proof. induction e; cbn [strip_cause errnos_nonzero]; auto. Qed.
 Lemma strip_wrap_nonzero e : errnos_nonzero e -> errnos_nonzero (strip_wrap e).
-Proof. induction e; cbn [strip_wrap errnos_nonzero]; auto. Qed.
+Proof. intros H. apply strip_cause_nonzero, strip_under_nonzero, H. Qed.
 
 Lemma get_errno_nonzero t e : errnos_nonzero e -> get_errno t e <> 0.
 Proof.
